@@ -114,7 +114,7 @@ func (a *archNode) SetArchetype(arch *archetype) {
 }
 
 // CreateArchetype creates a new archetype in nodes with relation component.
-func (a *archNode) CreateArchetype(layouts uint8, target Entity) *archetype {
+func (a *archNode) CreateArchetype(layouts int, target Entity) *archetype {
 	var arch *archetype
 	var archIndex int32
 	lenFree := len(a.freeIndices)
@@ -134,7 +134,7 @@ func (a *archNode) CreateArchetype(layouts uint8, target Entity) *archetype {
 	return arch
 }
 
-func (a *archNode) ExtendArchetypeLayouts(count uint8) {
+func (a *archNode) ExtendArchetypeLayouts(count int) {
 	if !a.IsActive {
 		return
 	}
